@@ -347,7 +347,7 @@ Fixpoint eval (e : expr) (v : value) {struct e} : outcome value :=
     match x with
     | VArr xs =>
       if two63 <=? zlen xs then OutOfFuel else
-      match py_slice xs a b c with
+      match py_slice xs a b (cjoin c) with
       | Some ys => project r ys
       | None => Err EEval                 (* step 0 *)
       end
